@@ -208,6 +208,11 @@ def c05(obj, kind, case, cfg, rec, rng, ref_obj=None):
                 vc = X[raw].dropna().map(S).value_counts() / len(X)
                 if (vc < cfg['min_freq']).any(): has_default = True
             judge('.unseen_category', probe_frame(raw, [unseen, base_row[raw]], object), f, expect_reject=(not has_default))
+            # unseen categories that are FALSY ('' and 0): like any other unseen category (default label or refusal), never passed through
+            known = [S(v) for v in order.values()]
+            for falsy in ('', 0):
+                if S(falsy) in known or falsy in order.values(): continue
+                judge('.unseen_falsy_category', probe_frame(raw, [falsy, base_row[raw]], object), f, expect_reject=(not has_default))
             if not order.contains(obj.str_nan):
                 judge('.missing_where_none_seen', probe_frame(raw, [np.nan, base_row[raw]], object), f, expect_reject=True)
     # the same finite numbers in an object-dtype column and in a nullable Float64 column
@@ -579,7 +584,9 @@ def _one(arg):
             for _ in range(2):
                 cands = candidate_edits(eo, case, rng)
                 if not cands: break
-                e = rng.choice(cands); eo.update_discretizer(*e); done.append([None if isnan(x) else x for x in e])
+                nan_edits = [c_ for c_ in cands if isnan(c_[2])]          # edits that attach the missing values to a modality (both modes) are tried half of the time when possible
+                e = rng.choice(nan_edits) if (nan_edits and rng.random() < 0.5) else rng.choice(cands)
+                eo.update_discretizer(*e); done.append([None if isnan(x) else x for x in e])
             if done:
                 rec_e = lambda c, ok, m, ex=None: rec(c + '.after_edit', ok, m, dict(ex or {}, edits=done))
                 if 'C04' in props:
